@@ -2,7 +2,7 @@
    The ring buffer is represented by its content; the only place the decoder sees the ring's
    geometry — the (first, end) split of Peek(3) — is the adversarial argument k. *)
 From Coq Require Import List NArith ZArith.
-From OAP Require Import Base.Bytes Base.Res Gen.Consts Model.Metadata Model.Header Model.Frame Model.Stream Model.Chunks Proofs.StreamP Proofs.ChunksP Model.Ring Proofs.RingP.
+From OAP Require Import Base.Bytes Base.Res Gen.Consts Model.Metadata Model.Header Model.Frame Model.Stream Model.Chunks Proofs.StreamP Proofs.ChunksP Model.Ring Proofs.RingP Proofs.RingWriteP.
 Import ListNotations.
 Local Open Scope N_scope.
 
@@ -92,13 +92,19 @@ Proof. exact ring_peek_split. Qed.
 Theorem C03_ring_retrieve_drops_content : forall (g : ring Byte.byte) n, ring_wf g ->
   ring_content (ring_retrieve g n) = skipn n (ring_content g) /\ ring_wf (ring_retrieve g n).
 Proof. exact ring_retrieve_refines. Qed.
-(* whole histories: any sequence of Length / Peek / Retrieve on a well-formed ring shows what the same sequence shows on
-   the content alone, and ends well-formed with the content the abstract history ends with; a new ring is well-formed *)
-Theorem C03_ring_history_refines : forall (ops : list rop) (g : ring Byte.byte), ring_wf g ->
-  snd (run_ops ring_step g ops) = snd (run_ops content_step (ring_content g) ops) /\
-  ring_content (fst (run_ops ring_step g ops)) = fst (run_ops content_step (ring_content g) ops) /\
-  ring_wf (fst (run_ops ring_step g ops)).
-Proof. exact ring_history_refines. Qed.
+(* the write side: Write(p), with or without growth through makeSpace, appends p to the content and keeps the invariant *)
+Theorem C03_ring_write_appends : forall (g : ring Byte.byte) p, ring_wf g ->
+  ring_content (ring_write Byte.x00 g p) = ring_content g ++ p /\ ring_wf (ring_write Byte.x00 g p).
+Proof. exact (ring_write_refines Byte.x00). Qed.
+(* whole histories: any sequence of Write / Length / Peek / Retrieve on a well-formed ring shows what the same sequence
+   shows on the content alone (a byte queue: append, length, firstn, skipn), and ends well-formed with the content the
+   abstract history ends with; a new ring is well-formed and empty.  So the content-level theorems above speak about
+   the real buffer in every state the read loop can bring it into. *)
+Theorem C03_ring_history_refines : forall (ops : list (rop Byte.byte)) (g : ring Byte.byte), ring_wf g ->
+  snd (run_ops (ring_step Byte.x00) g ops) = snd (run_ops content_step (ring_content g) ops) /\
+  ring_content (fst (run_ops (ring_step Byte.x00) g ops)) = fst (run_ops content_step (ring_content g) ops) /\
+  ring_wf (fst (run_ops (ring_step Byte.x00) g ops)).
+Proof. exact (ring_history_refines Byte.x00). Qed.
 Theorem C03_ring_new_wf : forall size, (0 < size)%nat ->
   ring_wf (mkRing (repeat Byte.x00 size) size 0 0 true) /\ ring_content (mkRing (repeat Byte.x00 size) size 0 0 true) = [].
 Proof. intros size H. unfold ring_wf; cbn. rewrite repeat_length. auto. Qed.
@@ -115,3 +121,4 @@ Print Assumptions C03_ring_peek_split_is_geometry.
 Print Assumptions C03_ring_retrieve_drops_content.
 Print Assumptions C03_ring_history_refines.
 Print Assumptions C03_ring_new_wf.
+Print Assumptions C03_ring_write_appends.
